@@ -1,16 +1,27 @@
 (* C10 - num_workers is the configured number after every reload, whatever TTIN / TTOU did to it before.
-   Only Arbiter.reload (Model/Reload.v [reload]) writes num, cfgw, cfgid, ncfg; every other transition keeps them. *)
+   Apart from the dispatch of TTIN / TTOU (num + 1 / num - 1), only Arbiter.reload (Model/Reload.v [reload]) writes num, cfgw,
+   cfgid, ncfg; every other transition keeps them. *)
 From Coq Require Import List ZArith Bool Lia.
 From GV Require Import Gen.GenArbiter Model.Reload.
 Import ListNotations.
 Local Open Scope Z_scope.
 
 (* at least one reload has happened <-> cfgid > 0 (cfgid is the index of the Config object in force; 0 = the one loaded at start) *)
+Definition quiet_q (s : st) : Prop := forall sg, In sg (sigq s) -> sg <> SIGTTIN /\ sg <> SIGTTOU.
+
 Definition CInv (s : st) : Prop :=
-  1 <= ncfg s /\ 0 <= cfgid s < ncfg s /\ (0 < cfgid s -> num s = cfgw s).
+  quiet_q s /\ 1 <= ncfg s /\ 0 <= cfgid s < ncfg s /\ (0 < cfgid s -> num s = cfgw s).
 
 (* the stronger form for a pool nobody resized *)
-Definition CInv0 (s : st) : Prop := num s = cfgw s.
+Definition CInv0 (s : st) : Prop := quiet_q s /\ num s = cfgw s.
+
+(* no TTIN / TTOU arrives during the schedule (before it: init_resized) *)
+Fixpoint no_resize (ls : list label) : bool :=
+  match ls with
+  | [] => true
+  | Ttin :: _ | Ttou :: _ => false
+  | _ :: t => no_resize t
+  end.
 
 Definition same_cf (s s' : st) : Prop :=
   num s' = num s /\ cfgw s' = cfgw s /\ cfgid s' = cfgid s /\ ncfg s' = ncfg s.
@@ -41,19 +52,22 @@ Qed.
 Definition reloaded (s s' : st) : Prop :=
   num s' = cfgw s' /\ cfgid s' = ncfg s /\ ncfg s' = ncfg s + 1.
 
-Lemma dispatch_cf : forall s sg, same_cf s (dispatch s sg) \/ reloaded s (dispatch s sg).
+Lemma dispatch_cf : forall s sg, sg <> SIGTTIN -> sg <> SIGTTOU -> same_cf s (dispatch s sg) \/ reloaded s (dispatch s sg).
 Proof.
-  intros. unfold dispatch. destruct (sg =? SIGHUP).
+  intros s sg N1 N2. unfold dispatch. destruct (sg =? SIGHUP).
   - right. unfold reloaded. destruct (Z.to_nat (cfgw (reload s))); unfold begin_spawn; simpl; auto.
-  - left. unfold to_loop, same_cf; simpl; auto.
+  - apply Z.eqb_neq in N1. apply Z.eqb_neq in N2. rewrite N1, N2. left. unfold to_loop, same_cf; simpl; auto.
 Qed.
 
-Lemma master_cf : forall s, same_cf s (master s) \/ reloaded s (master s).
+Definition same_q (s s' : st) : Prop := forall sg, In sg (sigq s') -> In sg (sigq s).
+
+Lemma master_cf : forall s, quiet_q s -> same_cf s (master s) \/ reloaded s (master s).
 Proof.
-  intros s. unfold master. destruct (cur s) as [| | | |age k|p age k|n| |v].
-  - destruct (sigq s) as [|sg q].
+  intros s Hq. unfold master. destruct (cur s) as [| | | |age k|p age k|n| |v].
+  - destruct (sigq s) as [|sg q] eqn:Q.
     + left. unfold same_cf; simpl; auto.
-    + destruct (dispatch_cf (set_sigq s q) sg) as [H|H]; [left|right].
+    + destruct (Hq sg) as [N1 N2]; [rewrite Q; left; reflexivity|].
+      destruct (dispatch_cf (set_sigq s q) sg N1 N2) as [H|H]; [left|right].
       * eapply same_cf_trans; [|exact H]. unfold same_cf; simpl; auto.
       * unfold reloaded in *. simpl in H. exact H.
   - left. unfold same_cf; simpl; auto.
@@ -75,50 +89,138 @@ Proof.
   eapply same_cf_trans; [|apply IH]. unfold same_cf; simpl; auto.
 Qed.
 
-Lemma step_cf : forall s l, same_cf s (step s l) \/ reloaded s (step s l).
+(* ---- the queue: the master only ever pops it ------------------------------------------------------------------------------ *)
+Lemma kill_worker_q : forall s p sg, sigq (kill_worker s p sg) = sigq s.
+Proof. intros. unfold kill_worker. destruct (kill_in (kids s) p sg); reflexivity. Qed.
+Lemma begin_spawn_q : forall s k, sigq (begin_spawn s k) = sigq s.
+Proof. reflexivity. Qed.
+Lemma manage_kill_next_q : forall s v, sigq (manage_kill_next s v) = sigq s.
+Proof. intros. unfold manage_kill_next, to_loop. destruct v; reflexivity. Qed.
+Lemma after_register_q : forall s k, sigq (after_register s k) = sigq s.
+Proof. intros. unfold after_register. destruct k as [n|n]; [reflexivity|]. destruct n; reflexivity. Qed.
+
+Lemma dispatch_q : forall s sg, sigq (dispatch s sg) = sigq s.
 Proof.
-  intros s l. destruct l as [| |p status|p| |w a]; simpl.
-  - apply master_cf.
+  intros. unfold dispatch. destruct (sg =? SIGHUP).
+  - destruct (Z.to_nat (cfgw (reload s))); reflexivity.
+  - destruct (sg =? SIGTTIN); [reflexivity|]. destruct (sg =? SIGTTOU); [|reflexivity].
+    destruct (num s <=? 1); reflexivity.
+Qed.
+
+Lemma master_q : forall s, same_q s (master s).
+Proof.
+  intros s sg. unfold master. destruct (cur s) as [| | | |age k|p age k|n| |v].
+  - destruct (sigq s) as [|x q] eqn:Q.
+    + simpl. rewrite Q. auto.
+    + rewrite dispatch_q. simpl. intros H. right. exact H.
+  - simpl. auto.
+  - destruct (wlen s <? num s); simpl; auto.
+  - destruct (num s - wlen s <=? 0); [simpl; auto | rewrite begin_spawn_q; auto].
+  - simpl. auto.
+  - rewrite after_register_q. simpl. auto.
+  - destruct n; [simpl; auto | rewrite begin_spawn_q; auto].
+  - rewrite manage_kill_next_q. auto.
+  - destruct v as [|p v].
+    + simpl. auto.
+    + rewrite manage_kill_next_q, kill_worker_q. auto.
+Qed.
+
+Lemma reap_q : forall fuel s, sigq (reap fuel s) = sigq s.
+Proof.
+  induction fuel as [|f IH]; intros s; simpl; [reflexivity|].
+  destruct (first_zombie (kids s)) as [[z rest]|]; [|reflexivity]. rewrite IH. reflexivity.
+Qed.
+
+Lemma queue_quiet : forall s sg, sg <> SIGTTIN -> sg <> SIGTTOU -> quiet_q s -> quiet_q (queue_sig s sg).
+Proof.
+  intros s sg N1 N2 H. unfold queue_sig. destruct (Z.of_nat (length (sigq s)) <? sig_queue_max); auto.
+  intros x Hx. simpl in Hx. apply in_app_or in Hx. destruct Hx as [Hx|[Hx|[]]]; [apply H; auto|]. subst x. auto.
+Qed.
+
+Definition resizes (l : label) : bool := match l with Ttin | Ttou => true | _ => false end.
+
+Lemma step_quiet : forall s l, resizes l = false -> quiet_q s -> quiet_q (step s l).
+Proof.
+  intros s l R H. destruct l as [| |p status|p| |w a| |]; simpl; try discriminate.
+  - intros sg Hsg. apply H. apply (master_q s sg Hsg).
+  - unfold chld. intros sg Hsg. rewrite reap_q in Hsg. auto.
+  - exact H.
+  - exact H.
+  - apply queue_quiet; auto; discriminate.
+  - destruct (0 <=? w); exact H.
+Qed.
+
+Lemma step_cf : forall s l, resizes l = false -> quiet_q s -> same_cf s (step s l) \/ reloaded s (step s l).
+Proof.
+  intros s l R Hq. destruct l as [| |p status|p| |w a| |]; simpl; try discriminate.
+  - apply master_cf; auto.
   - left. apply reap_cf.
   - left. unfold same_cf; simpl; auto.
   - left. unfold same_cf; simpl; auto.
-  - left. destruct (Z.of_nat (length (sigq s)) <? sig_queue_max); unfold same_cf; simpl; auto.
+  - left. unfold queue_sig. destruct (Z.of_nat (length (sigq s)) <? sig_queue_max); unfold same_cf; simpl; auto.
   - left. destruct (0 <=? w); unfold same_cf; simpl; auto.
 Qed.
 
-Lemma step_cinv : forall s l, CInv s -> CInv (step s l).
+Lemma step_cinv : forall s l, resizes l = false -> CInv s -> CInv (step s l).
 Proof.
-  intros s l [N [C H]]. destruct (step_cf s l) as [[A1 [A2 [A3 A4]]]|[R1 [R2 R3]]]; unfold CInv.
+  intros s l R [Q [N [C H]]]. pose proof (step_quiet s l R Q) as Q'.
+  destruct (step_cf s l R Q) as [[A1 [A2 [A3 A4]]]|[R1 [R2 R3]]]; unfold CInv; (split; [exact Q'|]).
   - rewrite A1, A2, A3, A4. auto.
   - rewrite R2, R3. split; [lia|]. split; [lia|]. intros _. exact R1.
 Qed.
 
-Lemma step_cinv0 : forall s l, CInv0 s -> CInv0 (step s l).
+Lemma step_cinv0 : forall s l, resizes l = false -> CInv0 s -> CInv0 (step s l).
 Proof.
-  intros s l H. unfold CInv0 in *. destruct (step_cf s l) as [[A1 [A2 [A3 A4]]]|[R1 [R2 R3]]]; congruence.
+  intros s l R [Q H]. split; [apply step_quiet; auto|].
+  destruct (step_cf s l R Q) as [[A1 [A2 [A3 A4]]]|[R1 [R2 R3]]]; congruence.
 Qed.
 
-Lemma run_cinv : forall ls s, CInv s -> CInv (run s ls).
-Proof. induction ls as [|l t IH]; simpl; intros s H; auto. apply IH. apply step_cinv. exact H. Qed.
+Lemma no_resize_cons : forall l t, no_resize (l :: t) = true -> resizes l = false /\ no_resize t = true.
+Proof. intros l t H. destruct l; simpl in *; try discriminate; auto. Qed.
 
-Lemma run_cinv0 : forall ls s, CInv0 s -> CInv0 (run s ls).
-Proof. induction ls as [|l t IH]; simpl; intros s H; auto. apply IH. apply step_cinv0. exact H. Qed.
+Lemma run_cinv : forall ls s, no_resize ls = true -> CInv s -> CInv (run s ls).
+Proof.
+  induction ls as [|l t IH]; simpl; intros s N H; auto.
+  destruct (no_resize_cons l t N) as [R N']. apply IH; auto. apply step_cinv; auto.
+Qed.
 
-(* for ANY schedule (deaths included): once a reload has happened, num_workers is cfg.workers of the configuration in force *)
-Theorem count_after_reload : forall n k a ls,
+Lemma run_cinv0 : forall ls s, no_resize ls = true -> CInv0 s -> CInv0 (run s ls).
+Proof.
+  induction ls as [|l t IH]; simpl; intros s N H; auto.
+  destruct (no_resize_cons l t N) as [R N']. apply IH; auto. apply step_cinv0; auto.
+Qed.
+
+(* for ANY schedule without further TTIN / TTOU (deaths included), from a pool that TTIN / TTOU had resized: once a reload has
+   happened, num_workers is cfg.workers of the configuration in force *)
+Theorem count_after_reload : forall n k a ls, no_resize ls = true ->
   let s := run (init_resized n k a) ls in 0 < cfgid s -> num s = cfgw s.
 Proof.
-  intros n k a ls s. assert (H : CInv s).
-  { apply run_cinv. unfold CInv, init_resized. simpl. repeat split; lia. }
-  destruct H as [_ [_ H]]. exact H.
+  intros n k a ls N s. assert (H : CInv s).
+  { apply run_cinv; auto. unfold CInv, init_resized, quiet_q. simpl. repeat split; try lia; contradiction. }
+  destruct H as [_ [_ [_ H]]]. exact H.
 Qed.
 
-Theorem count_unresized : forall n a ls, num (run (init n a) ls) = cfgw (run (init n a) ls).
-Proof. intros. apply run_cinv0. reflexivity. Qed.
+Theorem count_unresized : forall n a ls, no_resize ls = true -> num (run (init n a) ls) = cfgw (run (init n a) ls).
+Proof. intros n a ls N. apply run_cinv0; auto. split; [intros sg []|reflexivity]. Qed.
+
+(* what the dispatch of each of the three signals does to the count, in any state *)
+Theorem dispatch_counts : forall s,
+  num (dispatch s SIGHUP) = disk_w s /\ cfgw (dispatch s SIGHUP) = disk_w s /\
+  num (dispatch s SIGTTIN) = num s + 1 /\
+  num (dispatch s SIGTTOU) = (if num s <=? 1 then num s else num s - 1) /\
+  cfgw (dispatch s SIGTTIN) = cfgw s /\ cfgw (dispatch s SIGTTOU) = cfgw s.
+Proof.
+  intros s. unfold dispatch. cbn [Z.eqb SIGHUP SIGTTIN SIGTTOU Pos.eqb].
+  repeat split.
+  - destruct (Z.to_nat (cfgw (reload s))); reflexivity.
+  - destruct (Z.to_nat (cfgw (reload s))); reflexivity.
+  - destruct (num s <=? 1); reflexivity.
+  - destruct (num s <=? 1); reflexivity.
+Qed.
 
 (* a reload is what makes cfgid positive: the dispatch of SIGHUP installs Config object number ncfg >= 1 *)
 Lemma reload_marks : forall s q, CInv s -> cur s = PSigq -> sigq s = SIGHUP :: q -> 0 < cfgid (master s).
 Proof.
-  intros s q [N _] C Q. unfold master. rewrite C, Q. unfold dispatch. rewrite Z.eqb_refl.
+  intros s q [_ [N _]] C Q. unfold master. rewrite C, Q. unfold dispatch. rewrite Z.eqb_refl.
   destruct (Z.to_nat (cfgw (reload (set_sigq s q)))); unfold begin_spawn; simpl; lia.
 Qed.
